@@ -40,15 +40,15 @@ type fakeSession struct {
 	w             *world
 }
 
-func (s *fakeSession) IsClosed() bool                          { return s.closed.Load() }
-func (s *fakeSession) RemoteAddr() string                      { return "127.0.0.1:8091" }
-func (s *fakeSession) LocalAddr() string                       { return "127.0.0.1:40000" }
-func (s *fakeSession) Stat() string                            { return "fake-session " + s.name }
-func (s *fakeSession) Close()                                  { s.closed.Store(true) }
-func (s *fakeSession) GetAttribute(interface{}) interface{}    { return nil }
-func (s *fakeSession) SetAttribute(interface{}, interface{})   {}
-func (s *fakeSession) RemoveAttribute(interface{})             {}
-func (s *fakeSession) ID() uint32                              { return 1 }
+func (s *fakeSession) IsClosed() bool                        { return s.closed.Load() }
+func (s *fakeSession) RemoteAddr() string                    { return "127.0.0.1:8091" }
+func (s *fakeSession) LocalAddr() string                     { return "127.0.0.1:40000" }
+func (s *fakeSession) Stat() string                          { return "fake-session " + s.name }
+func (s *fakeSession) Close()                                { s.closed.Store(true) }
+func (s *fakeSession) GetAttribute(interface{}) interface{}  { return nil }
+func (s *fakeSession) SetAttribute(interface{}, interface{}) {}
+func (s *fakeSession) RemoveAttribute(interface{})           {}
+func (s *fakeSession) ID() uint32                            { return 1 }
 func (s *fakeSession) WritePkg(pkg interface{}, _ time.Duration) (int, int, error) {
 	m, ok := pkg.(message.RpcMessage)
 	if !ok {
@@ -80,7 +80,7 @@ type world struct {
 	failHB   bool
 	waitTag  map[string]chan wrec // writes announced per tag
 	all      []wrec
-	hook     func(wrec) // conc mode: called (outside the lock) on every successful write
+	hook     func(wrec)            // conc mode: called (outside the lock) on every successful write
 	early    map[string]func(wrec) // seq mode: reply delivered before WritePkg returns to the caller
 }
 
@@ -121,6 +121,48 @@ func (w *world) onWrite(s *fakeSession, m message.RpcMessage) (int, int, error) 
 		hook(r)
 	}
 	return 1, 1, nil
+}
+
+// patient(d) is time.After(d) measured in 5 ms steps of this process: if the whole
+// process (or machine) is stalled, the limit does not run out while the goroutine
+// being waited for had no chance to run either. stop() releases the ticker goroutine.
+func patient(d time.Duration) (<-chan struct{}, func()) {
+	ch := make(chan struct{})
+	var stopped atomic.Bool
+	steps := int(d / (5 * time.Millisecond))
+	go func() {
+		for i := 0; i < steps && !stopped.Load(); i++ {
+			time.Sleep(5 * time.Millisecond)
+		}
+		close(ch)
+	}()
+	return ch, func() { stopped.Store(true) }
+}
+
+// guard is hutil.Guard with a stall-robust limit
+func guard(limit time.Duration, f func() error) (class string, detail string) {
+	type res struct{ class, detail string }
+	ch := make(chan res, 1)
+	go func() {
+		defer func() {
+			if p := recover(); p != nil {
+				ch <- res{hutil.OutPanic, fmt.Sprintf("%v", p)}
+			}
+		}()
+		if err := f(); err != nil {
+			ch <- res{hutil.OutErr, err.Error()}
+			return
+		}
+		ch <- res{hutil.OutOK, ""}
+	}()
+	lim, stop := patient(limit)
+	defer stop()
+	select {
+	case r := <-ch:
+		return r.class, r.detail
+	case <-lim:
+		return hutil.OutDiverged, "no result within " + limit.String()
+	}
 }
 
 // ---------------------------------------------------------------- observation
@@ -169,15 +211,16 @@ type outRec struct {
 }
 
 type c14case struct {
-	Mode   string          `json:"mode"`
-	C0     uint32          `json:"c0"`
-	H0     uint32          `json:"h0"`
-	Events [][]interface{} `json:"events"`
-	Out    []outRec        `json:"out"`
-	Oracle []string        `json:"oracle"` // direct-oracle failures (empty = property held on this history)
-	Fresh  bool            `json:"fresh_ok"`
-	Callers int            `json:"callers"`
-	Secs   float64         `json:"secs"`
+	Mode        string          `json:"mode"`
+	C0          uint32          `json:"c0"`
+	H0          uint32          `json:"h0"`
+	Events      [][]interface{} `json:"events"`
+	Out         []outRec        `json:"out"`
+	Oracle      []string        `json:"oracle"` // direct-oracle failures (empty = property held on this history)
+	Fresh       bool            `json:"fresh_ok"`
+	Callers     int             `json:"callers"`
+	Secs        float64         `json:"secs"`
+	TimeoutWait float64         `json:"timeout_wait_s,omitempty"` // batch: seconds until every unanswered waiter had timed out
 }
 
 type result struct {
@@ -186,13 +229,13 @@ type result struct {
 }
 
 type waiterInfo struct {
-	k       int
-	sync    bool
-	id      int32
-	hasID   bool
-	waiting bool // written successfully and not yet returned
-	res     chan result
-	done    bool
+	k         int
+	sync      bool
+	id        int32
+	hasID     bool
+	waiting   bool // written successfully and not yet returned
+	res       chan result
+	done      bool
 	delivered []int64 // bodies of replies delivered while it was waiting (direct oracle)
 }
 
@@ -256,11 +299,13 @@ func (r *runner) open() *waiterInfo {
 	wi := &waiterInfo{k: r.nextK, sync: false}
 	r.nextK++
 	r.ws[wi.k] = wi
+	pt1, stop1 := patient(5 * time.Second)
+	defer stop1()
 	select {
 	case rec := <-ch:
 		wi.id, wi.hasID, wi.waiting = rec.ID, true, true
 		r.byID[rec.ID] = wi
-	case <-time.After(5 * time.Second):
+	case <-pt1:
 		r.oracle("RegisterTM request of a new session was not written")
 	}
 	r.ev("S", wi.k, false)
@@ -319,16 +364,20 @@ func (r *runner) send(sync bool, wfail bool) *waiterInfo {
 	}()
 	r.ev("S", wi.k, wfail)
 	if sync {
+		pt2, stop2 := patient(10 * time.Second)
+		defer stop2()
 		select {
 		case rec := <-ch:
 			wi.id, wi.hasID, wi.waiting = rec.ID, true, true
 			r.byID[rec.ID] = wi
 		case res := <-wi.res:
 			r.finish(wi, res)
-		case <-time.After(10 * time.Second):
+		case <-pt2:
 			r.oracle("caller %d neither wrote its request nor returned within 10 s", wi.k)
 		}
 	} else {
+		pt3, stop3 := patient(10 * time.Second)
+		defer stop3()
 		select {
 		case res := <-wi.res:
 			if res.err != nil {
@@ -342,7 +391,7 @@ func (r *runner) send(sync bool, wfail bool) *waiterInfo {
 					r.oracle("one-way sender %d returned nil without writing", wi.k)
 				}
 			}
-		case <-time.After(10 * time.Second):
+		case <-pt3:
 			r.oracle("one-way sender %d did not return within 10 s", wi.k)
 		}
 	}
@@ -388,22 +437,28 @@ func (r *runner) sendEarly() {
 		wi.res <- result{v, err}
 	}()
 	r.ev("S", wi.k, false)
+	pt4, stop4 := patient(10 * time.Second)
+	defer stop4()
 	select {
 	case <-delivered:
-	case <-time.After(10 * time.Second):
+	case <-pt4:
 		r.oracle("caller %d did not write its request within 10 s", wi.k)
 		return
 	}
 	r.byID[wi.id] = wi
 	r.ev("D", int64(wi.id), b)
 	wi.delivered = append(wi.delivered, b)
+	pt6, stop6 := patient(3 * time.Second)
+	defer stop6()
 	select {
 	case res := <-wi.res:
 		r.finish(wi, res)
+		pt5, stop5 := patient(3 * time.Second)
+		defer stop5()
 		select { // both steps of the delivery are over before the next event
 		case <-done:
 			r.ev("R", int64(wi.id))
-		case <-time.After(3 * time.Second):
+		case <-pt5:
 			r.oracle("delivery of the reply for id %d did not return within 3 s (message processing blocked)", wi.id)
 		}
 		if res.err == nil {
@@ -411,7 +466,7 @@ func (r *runner) sendEarly() {
 		} else {
 			r.oracle("caller %d (id %d): its reply was processed right after the request was written, yet it returned error %q", wi.k, wi.id, firstLine(res.err.Error()))
 		}
-	case <-time.After(3 * time.Second):
+	case <-pt6:
 		wi.waiting = true
 		r.oracle("caller %d (id %d): its reply was processed right after the request was written, yet it did not return (reply lost)", wi.k, wi.id)
 	}
@@ -459,10 +514,12 @@ func (r *runner) inbound(m interface{}, limit time.Duration) (returned bool, pan
 		r.handler.OnMessage(sess, m)
 		done <- ""
 	}()
+	pt7, stop7 := patient(limit)
+	defer stop7()
 	select {
 	case p := <-done:
 		return true, p
-	case <-time.After(limit):
+	case <-pt7:
 		return false, ""
 	}
 }
@@ -490,6 +547,8 @@ func (r *runner) reply(id int32) {
 	if wasWaiting {
 		wi.delivered = append(wi.delivered, b)
 		if wi.sync {
+			pt8, stop8 := patient(3 * time.Second)
+			defer stop8()
 			select {
 			case res := <-wi.res:
 				r.finish(wi, res)
@@ -501,7 +560,7 @@ func (r *runner) reply(id int32) {
 					}
 					r.oracle("caller %d (id %d) was waiting when its reply was delivered but returned error %q", wi.k, id, firstLine(res.err.Error()))
 				}
-			case <-time.After(3 * time.Second):
+			case <-pt8:
 				r.oracle("caller %d (id %d) was waiting when its reply was delivered but did not return", wi.k, id)
 			}
 		} else {
@@ -518,7 +577,7 @@ func (r *runner) writeResp(id int32, wfail bool) {
 		r.w.failTags[tag] = true
 		r.w.mu.Unlock()
 	}
-	cls, det := hutil.Guard(10*time.Second, func() error {
+	cls, det := guard(10*time.Second, func() error {
 		return sgetty.GetGettyRemotingClient().SendAsyncResponse(id, message.BranchCommitResponse{
 			AbstractBranchEndResponse: message.AbstractBranchEndResponse{Xid: tag, BranchId: 1}})
 	})
@@ -533,7 +592,7 @@ func (r *runner) heartbeat(wfail bool) {
 	r.w.failHB = wfail
 	r.w.mu.Unlock()
 	sess := r.sess
-	cls, det := hutil.Guard(10*time.Second, func() error { r.handler.OnCron(sess); return nil })
+	cls, det := guard(10*time.Second, func() error { r.handler.OnCron(sess); return nil })
 	if cls != hutil.OutOK {
 		r.oracle("OnCron: %s %s", cls, firstLine(det))
 	}
@@ -837,7 +896,8 @@ func concCase(rng *hutil.Rng, n int) *c14case {
 	}
 	close(start)
 	got := map[int]result{}
-	deadline := time.After(15 * time.Second)
+	deadline, stopDeadline := patient(15 * time.Second)
+	defer stopDeadline()
 loop:
 	for len(got) < n {
 		select {
@@ -849,9 +909,11 @@ loop:
 	}
 	wdone := make(chan struct{})
 	go func() { wg.Wait(); close(wdone) }()
+	pt9, stop9 := patient(5 * time.Second)
+	defer stop9()
 	select {
 	case <-wdone:
-	case <-time.After(5 * time.Second):
+	case <-pt9:
 		r.oracle("reply deliveries still blocked 5 s after the last caller returned")
 	}
 	r.w.mu.Lock()
@@ -982,7 +1044,12 @@ func batchCase(rng *hutil.Rng, n int) *c14case {
 		r.obs()
 	}
 	// wait for the timeouts of everything unanswered
-	deadline := time.Now().Add(40 * time.Second)
+	// the client's timer (gost timer wheel) may fire late under CPU load — a whole
+	// revolution of its seconds wheel late when a tick is missed — so the limit is
+	// generous; normally everything has returned 20-21 s after the sends
+	// (limits are counted in polling steps of this process, not in wall-clock time:
+	// a stall of the whole machine must not look like a caller that never returns)
+	steps, maxSteps := 0, 4000 // x 50 ms = 200 s
 	for {
 		open := 0
 		for _, wi := range r.sortedWaiters() {
@@ -1001,23 +1068,26 @@ func batchCase(rng *hutil.Rng, n int) *c14case {
 				}
 			}
 		}
-		if open == 0 || time.Now().After(deadline) {
+		steps++
+		if open == 0 || steps > maxSteps {
 			break
 		}
 		time.Sleep(50 * time.Millisecond)
 	}
 	// one-way waiters time out inside the client: wait until the table drains
-	for time.Now().Before(deadline) && pendingFutures() > 0 {
+	for steps <= maxSteps && pendingFutures() > 0 {
+		steps += 2
 		time.Sleep(100 * time.Millisecond)
 	}
 	time.Sleep(300 * time.Millisecond)
+	r.cs.TimeoutWait = time.Since(t0).Seconds()
 	for _, wi := range r.sortedWaiters() {
 		if wi.waiting && !wi.sync {
 			wi.waiting, wi.done = false, true
 			r.ev("T", wi.k)
 		}
 		if wi.waiting && wi.sync {
-			r.oracle("caller %d (id %d) did not return within 40 s", wi.k, wi.id)
+			r.oracle("caller %d (id %d) did not return within 200 s", wi.k, wi.id)
 		}
 	}
 	r.obs()
